@@ -30,6 +30,13 @@ class Hamiltonian(CallableModel):
         hamiltonian = potential_energy + kinetic_energy
         return hamiltonian
 
+    def __call__(self, *args, **kwargs) -> Tensor:
+        # the value depends on the momentum (and mass matrix) passed in, which no
+        # listener knows about: the cached value must not be reused
+        self.lp = self._call(*args, **kwargs)
+        self.lp_needs_update = False
+        return self.lp
+
     def sample_momentum(self, mass_matrix: Tensor) -> None:
         if mass_matrix.dim() == 1:
             momentum = Normal(
